@@ -78,6 +78,17 @@ func H19_keepalive() {
 		vrtCheckArmed(c, K, "after_traffic")
 	}
 	wit.peerTake()
+	// what the broker SENDS to the client is not activity of the client: a silent subscriber on a busy topic
+	if vrtBool("receives_traffic") {
+		vrtExchange(c, &specPkt{Typ: specSUBSCRIBE, ID: 9, Topics: [][]byte{[]byte("d")}, QoS: []byte{0}})
+		c.peerTake()
+		dl0, _, arms0, _ := c.armState()
+		vrtExchange(wit, &specPkt{Typ: specPUBLISH, Topic: []byte("d"), Payload: []byte("1")})
+		vrtAssert("C19.harness_traffic_delivered", len(c.peerTake()) > 0)
+		dl1, _, arms1, _ := c.armState()
+		vrtAssert("C19.outbound_traffic_does_not_rearm", vrtAnd(dl1 == dl0, arms1 == arms0))
+		wit.peerTake()
+	}
 	// now the client falls silent - on a packet boundary or in the middle of a packet
 	switch vrtChoice("last_bytes", 3) {
 	case 1:
@@ -101,4 +112,42 @@ func H19_keepalive() {
 	}
 	vrtObserve("ka", c.isClosed(), len(got))
 	vrtReach("C19.done")
+}
+
+// H19b_dead_subscriber: the client is completely dead (neither sends nor
+// reads) while another client keeps publishing to its subscription until its
+// outbound ring is full and the publisher's delivery blocks; when the
+// keep-alive deadline passes, it is still dropped as failed (will published)
+// and the publisher's connection comes back to life.
+func H19b_dead_subscriber() {
+	b := vrtBroker("mockSuccess")
+	wit, _ := b.connect(vrtConnectPkt([]byte("wit"), true))
+	vrtExchange(wit, &specPkt{Typ: specSUBSCRIBE, ID: 1, Topics: [][]byte{[]byte("gone")}, QoS: []byte{0}})
+	wit.peerTake()
+	pub, _ := b.connect(vrtConnectPkt([]byte("pub"), true))
+	p := vrtConnectPkt([]byte("c"), vrtBool("clean"))
+	p.KeepAlive = 5
+	p.CFlags |= 4
+	p.WillTopic, p.WillMsg = []byte("gone"), []byte("x")
+	c, _ := b.connect(p)
+	vrtExchange(c, &specPkt{Typ: specSUBSCRIBE, ID: 1, Topics: [][]byte{[]byte("d")}, QoS: []byte{0}})
+	c.peerTake()
+	c.peerStall(100)
+	for i := 0; i < 3; i++ {
+		pub.peerSend(specEncode(vrtBigPublish("d", byte(i))))
+	}
+	pub.peerSend(specEncode(&specPkt{Typ: specPINGREQ}))
+	vrtQuiesce()
+	vrtAssert("C19.harness_publisher_held_up", len(pub.peerTake()) == 0)
+	vrtAssert("C19.incomplete_packet_keeps_connection", !c.isClosed())
+	c.peerExpireDeadline()
+	vrtQuiesce()
+	vrtAssert("C19.silent_client_dropped", c.isClosed())
+	got, ok := vrtParse(wit.peerTake())
+	vrtAssert("C19.silent_client_is_a_failure", vrtAnd(ok, len(got) == 1))
+	if len(got) == 1 {
+		vrtAssert("C19.will_published", vrtAnd(vrtBytesEq(got[0].Topic, []byte("gone")), vrtBytesEq(got[0].Payload, []byte("x"))))
+	}
+	vrtAssert("C19.publisher_answered_after_drop", vrtBytesEq(pub.peerTake(), []byte{0xD0, 0}))
+	vrtReach("C19.dead_subscriber_dropped")
 }
